@@ -619,7 +619,21 @@ def run(ctx):
              [{"List_Name": "s", "name": "a", "Région": "x"}, {"List_Name": "s", "name": "b"}])):
         written = []
         writer = Obj(None, {"writerow": lambda i, a, k, n: written.append(list(i.iterate(a[0], n)))}, name="csvwriter")
-        hooks = {"ext:csv.writer": lambda i, a, k, n: writer, "ext:io.StringIO": lambda i, a, k, n: Obj(None, {"getvalue": lambda i2, a2, k2, n2: "CSV"}, name="sio")}
+        def h_dictwriter(i, a, k, n, written=written):
+            # csv.DictWriter(f, fieldnames, restval="", extrasaction="raise"): rows are written by field name
+            names = list(i.iterate(k.get("fieldnames", a[1] if len(a) > 1 else ()), n))
+            restval = k.get("restval", "")
+            strict = k.get("extrasaction", "raise") == "raise"
+
+            def wrow(i2, a2, k2, n2):
+                d_ = a2[0]
+                extra = [x for x in d_ if x not in names]
+                if extra and strict:
+                    raise Raised("ValueError", (f"dict contains fields not in fieldnames: {extra!r}",), n2, ("ValueError", "Exception", "BaseException"))
+                written.append([d_.get(f_, restval) for f_ in names])
+            return Obj(None, {"writeheader": lambda i2, a2, k2, n2: written.append(list(names)), "writerow": wrow,
+                              "writerows": lambda i2, a2, k2, n2: [wrow(i2, [r_], {}, n2) for r_ in i2.iterate(a2[0], n2)] and None, "fieldnames": names}, name="dictwriter")
+        hooks = {"ext:csv.writer": lambda i, a, k, n: writer, "ext:csv.DictWriter": h_dictwriter, "ext:io.StringIO": lambda i, a, k, n: Obj(None, {"getvalue": lambda i2, a2, k2, n2: "CSV"}, name="sio")}
         it = ctx.interp("C09.R7", hooks=hooks)
         it.reset([])
         wb = Obj(None, {"external_choices": rows, "external_choices_header": header}, name="workbook")
